@@ -8,8 +8,11 @@ import "github.com/ovn-org/libovsdb/verifshim/vsync"
 // they make the dispatcher goroutine and its channel receive visible to the
 // controlled scheduler.
 
-func verifSpawn()      { vsync.Spawn() }
-func verifThreadDone() { vsync.ThreadDone() }
+type verifToken = vsync.Token
+
+func verifSpawn() verifToken  { return vsync.Spawn() }
+func verifAdopt(t verifToken) { vsync.Adopt(t) }
+func verifThreadDone()        { vsync.ThreadDone() }
 
 // verifYieldRecv: the dispatcher is runnable when an event is queued or the stop channel is closed.
 func verifYieldRecv(events chan *event, stop <-chan struct{}) {
